@@ -1657,3 +1657,45 @@ async fn d40_inverted_range_over_disjoint_l1_tables_panics() {
 	}));
 	assert!(r.is_ok(), "D40: history(m, c) panicked");
 }
+
+// D41: a crash in the middle of WAL repair leaves wal/repair_temp behind; the next repair appends to the leftover
+// instead of starting from an empty file
+#[tokio::test(flavor = "multi_thread")]
+async fn d41_repair_after_a_crashed_repair_reuses_the_leftover_temp_segment() {
+	let d = td();
+	let opts = mk_opts(d.path().to_path_buf(), |o| {
+		o.flush_on_close = false;
+	});
+	{
+		let tree = Tree::new(Arc::clone(&opts)).unwrap();
+		for k in [b"k1", b"k2", b"k3", b"k4"] {
+			put(&tree, k, b"v").await;
+		}
+		tree.close().await.unwrap();
+	}
+	let p = last_wal(&opts);
+	let mut bytes = std::fs::read(&p).unwrap();
+	// record boundaries (7-byte header: crc32, len u16 BE, type)
+	let mut ends = vec![];
+	let mut off = 0usize;
+	while off + 7 <= bytes.len() {
+		let len = u16::from_be_bytes([bytes[off + 4], bytes[off + 5]]) as usize;
+		off += 7 + len;
+		ends.push(off);
+	}
+	assert_eq!(ends.len(), 4, "precondition: four records in the segment ({ends:?}, file {})", bytes.len());
+	// what a repair that crashed half-way left behind: record 1 and the beginning of record 2
+	let temp = opts.wal_dir().join("repair_temp");
+	std::fs::create_dir_all(&temp).unwrap();
+	std::fs::write(temp.join(format!("{:020}.wal", 0)), &bytes[..ends[0] + 10]).unwrap();
+	// the damage that made the repair necessary: a flipped payload byte in record 3
+	bytes[ends[1] + 9] ^= 0x40;
+	std::fs::write(&p, &bytes).unwrap();
+
+	let tree = Tree::new(Arc::clone(&opts)).expect("D41: the store does not open after a repair that follows a crashed repair");
+	let tx = tree.begin().unwrap();
+	let got: Vec<bool> = [b"k1", b"k2", b"k3", b"k4"].iter().map(|k| tx.get(*k).unwrap().is_some()).collect();
+	println!("D41 present after repair: {got:?}");
+	assert!(got[0] && got[1], "D41: records lying wholly before the damage are lost by the repair: {got:?}");
+	assert!(!got[2] && !got[3], "precondition: the damaged record and what follows are cut off");
+}
